@@ -806,6 +806,9 @@ def run(res, tier):
         raise AnalysisBroken("TbfDefaultLastLevelPeriodic not found as an integer constant")
     npairs = decomp.check_periodic(facts, res, "C10.8.periodic-real-tree", "TbfMortonSpaceIndex", int(lit[0]["val"]))
     res.floor("C10.8.periodic-real-tree", npairs, 1000, "(target, unwrapped source) pairs")
+    res.instance("C10.8.periodic-real-tree", "model size", "rules/decomp.py", "%d (target leaf cell, unwrapped source leaf cell) pairs examined" % npairs)
+    res.obligations += npairs
+    res.discharged += npairs if not any(v["rule"].startswith("C10.8") for v in res.violations) else 0
     morton_nb = morton_interactions(facts)
     res.instance("C10.2.window-extent", "getNbInteractionsPerCell", "src/spacial/tbfmortonspaceindex.hpp", "%d^Dim - %d^Dim" % morton_nb)
     summ = {}
